@@ -36,6 +36,10 @@ pub enum Behaviour {
     /// OID (1) or some other OID (2) instead of the StartTLS OID: a refusal is a refusal whatever it
     /// is named
     RefuseNamedThenTls(u32, u8),
+    /// an unsolicited notification (message ID 0) reporting success, the refusal of the StartTLS request
+    /// itself (this code) in the same write, then a handshake if the client starts one: what answers the
+    /// request is the response under its own ID
+    UnsolicitedSuccessThenRefuseThenTls(u32),
     /// answer StartTLS with bytes that are not an LDAP message
     Garbage,
     /// answer StartTLS with a well-formed non-extended response
@@ -83,6 +87,9 @@ pub struct Setup {
     /// (`set_no_tls_verify(true)` ... `set_no_tls_verify(false)`, as when a shared template is
     /// adjusted); what counts is the last call
     pub verify_toggled: bool,
+    /// the settings start from `LdapConnSettings::default()` (the struct derives `Default`; think of a
+    /// `#[derive(Default)]` configuration struct embedding it) instead of `new()`: same meaning
+    pub via_default: bool,
 }
 
 #[derive(Debug, Default, Clone)]
@@ -196,6 +203,12 @@ async fn handle(mut s: TcpStream, setup: Setup, tap: Arc<Mutex<Tap>>) {
                     _ => Some("1.2.840.113556.1.4.9999".to_string()),
                 };
                 let _ = s.write_all(&ber::encode_min(&resp_node(id, &Resp::Extended { res: Res::code(*rc, "refused"), name, value: None }, None))).await;
+                // falls through to the TLS phase
+            }
+            Behaviour::UnsolicitedSuccessThenRefuseThenTls(rc) => {
+                let mut v = ber::encode_min(&resp_node(0, &Resp::Extended { res: Res::ok("notice"), name: Some("1.3.6.1.4.1.99999.7".into()), value: None }, None));
+                v.extend_from_slice(&ext_ok(*rc));
+                let _ = s.write_all(&v).await;
                 // falls through to the TLS phase
             }
             Behaviour::MalformedThenTls(kind) => {
@@ -316,7 +329,7 @@ async fn client(setup: &Setup, port: u16) -> Obs {
         }
         url.push_str("dc=example,dc=org?cn?sub?(objectClass=*)?bindname=cn=Manager%2Cdc=example%2Cdc=org");
     }
-    let mut s = LdapConnSettings::new();
+    let mut s = if setup.via_default { LdapConnSettings::default() } else { LdapConnSettings::new() };
     const ORDERS: [[u8; 3]; 6] = [[0, 1, 2], [0, 2, 1], [1, 0, 2], [1, 2, 0], [2, 0, 1], [2, 1, 0]];
     for step in ORDERS[(setup.builder_order % 6) as usize] {
         s = match step {
@@ -407,6 +420,7 @@ fn matrix(rng: &mut Rng, reps: usize) -> Vec<Setup> {
                     // codes whose low octet is zero (two-octet ENUMERATED): 4096 is e-syncRefreshRequired
                     Behaviour::RefuseThenTls(*rng.pick(&[256u32, 512, 4096, 8192, 65536])),
                     Behaviour::RefuseThenTls(1 + rng.below(123) as u32),
+                    Behaviour::UnsolicitedSuccessThenRefuseThenTls(*rng.pick(&[2u32, 52, 53])),
                     Behaviour::RefuseNamedThenTls(*rng.pick(&refusals), 0),
                     Behaviour::RefuseNamedThenTls(*rng.pick(&[2u32, 52, 53, 80]), 1),
                     Behaviour::RefuseNamedThenTls(*rng.pick(&refusals), 2),
@@ -423,7 +437,7 @@ fn matrix(rng: &mut Rng, reps: usize) -> Vec<Setup> {
                 ];
                 for b in bs.drain(..) {
                     let ip_only = b == Behaviour::Tls(Cert::IpOnly);
-                    v.push(Setup { ldaps: false, starttls: true, no_verify, host_is_ip, behaviour: b, builder_order: rng.below(6) as u8, via_clone: rng.chance(1, 3), no_host_via_stream: !host_is_ip && rng.chance(1, 4), via_stream: rng.chance(1, 4), url_with_query: rng.chance(1, 4), verify_toggled: !no_verify && rng.chance(1, 3) });
+                    v.push(Setup { ldaps: false, starttls: true, no_verify, host_is_ip, behaviour: b, builder_order: rng.below(6) as u8, via_clone: rng.chance(1, 3), no_host_via_stream: !host_is_ip && rng.chance(1, 4), via_stream: rng.chance(1, 4), url_with_query: rng.chance(1, 4), verify_toggled: !no_verify && rng.chance(1, 3), via_default: rng.chance(1, 3) });
                     if ip_only {
                         // both ways of opening the connection for the certificate that is valid for the peer's address only
                         let mut other = v.last().unwrap().clone();
@@ -436,7 +450,7 @@ fn matrix(rng: &mut Rng, reps: usize) -> Vec<Setup> {
                 for &st in &[false, true] {
                     for b in [Behaviour::Tls(Cert::Good), Behaviour::Tls(Cert::WrongName), Behaviour::Tls(Cert::Untrusted), Behaviour::Tls(Cert::SelfSigned), Behaviour::Tls(Cert::IpOnly), Behaviour::Close, Behaviour::Garbage] {
                         let ip_only = b == Behaviour::Tls(Cert::IpOnly);
-                        v.push(Setup { ldaps: true, starttls: st, no_verify, host_is_ip, behaviour: b, builder_order: rng.below(6) as u8, via_clone: rng.chance(1, 3), no_host_via_stream: !host_is_ip && rng.chance(1, 4), via_stream: rng.chance(1, 4), url_with_query: rng.chance(1, 4), verify_toggled: !no_verify && rng.chance(1, 3) });
+                        v.push(Setup { ldaps: true, starttls: st, no_verify, host_is_ip, behaviour: b, builder_order: rng.below(6) as u8, via_clone: rng.chance(1, 3), no_host_via_stream: !host_is_ip && rng.chance(1, 4), via_stream: rng.chance(1, 4), url_with_query: rng.chance(1, 4), verify_toggled: !no_verify && rng.chance(1, 3), via_default: rng.chance(1, 3) });
                         if ip_only {
                             let mut other = v.last().unwrap().clone();
                             other.via_stream = !other.via_stream;
@@ -507,7 +521,7 @@ fn judge(setup: &Setup, obs: &Obs, tap: &Tap, rep: &mut Report) {
     };
     // ---- establishment outcome ----
     let must_fail = match &setup.behaviour {
-        Behaviour::Refuse(_) | Behaviour::RefuseThenTls(_) | Behaviour::RefuseNamedThenTls(..) | Behaviour::Garbage | Behaviour::WrongResponse | Behaviour::MalformedThenTls(_) | Behaviour::Close | Behaviour::Silent(_) => true,
+        Behaviour::Refuse(_) | Behaviour::RefuseThenTls(_) | Behaviour::RefuseNamedThenTls(..) | Behaviour::UnsolicitedSuccessThenRefuseThenTls(_) | Behaviour::Garbage | Behaviour::WrongResponse | Behaviour::MalformedThenTls(_) | Behaviour::Close | Behaviour::Silent(_) => true,
         Behaviour::Tls(c) => !trusted_for_host(*c) && !setup.no_verify,
         Behaviour::InjectSameSegment(_) | Behaviour::InjectDelayed => false,
     };
@@ -522,6 +536,7 @@ fn judge(setup: &Setup, obs: &Obs, tap: &Tap, rep: &mut Report) {
         Behaviour::RefuseThenTls(rc) => if *rc == 10 { "starttls-refused-with-referral-code-but-server-handshakes".into() } else { "starttls-refused-but-server-handshakes".into() },
         Behaviour::RefuseNamedThenTls(_, 0) => "starttls-refused-without-a-response-name-but-server-handshakes".into(),
         Behaviour::RefuseNamedThenTls(..) => "starttls-refused-under-another-response-name-but-server-handshakes".into(),
+        Behaviour::UnsolicitedSuccessThenRefuseThenTls(_) => "starttls-refused-behind-an-unsolicited-success-notice-but-server-handshakes".into(),
         Behaviour::Garbage => "garbage-response".into(),
         Behaviour::WrongResponse => "non-extended-response".into(),
         Behaviour::MalformedThenTls(_) => "undecodable-starttls-result-but-server-handshakes".into(),
@@ -572,7 +587,7 @@ pub fn reserved_ids_probe() -> Vec<(String, String, Vec<Vec<i32>>)> {
     let out = rt.block_on(async {
         let mut out = vec![];
         for ldaps in [false, true] {
-            let setup = Setup { ldaps, starttls: !ldaps, no_verify: false, host_is_ip: false, behaviour: Behaviour::Tls(Cert::Good), builder_order: 0, via_clone: false, no_host_via_stream: false, via_stream: false, url_with_query: false, verify_toggled: false };
+            let setup = Setup { ldaps, starttls: !ldaps, no_verify: false, host_is_ip: false, behaviour: Behaviour::Tls(Cert::Good), builder_order: 0, via_clone: false, no_host_via_stream: false, via_stream: false, url_with_query: false, verify_toggled: false, via_default: false };
             let mode = if ldaps { "ldaps".to_string() } else { "ldap + StartTLS".to_string() };
             let l = match TcpListener::bind("127.0.0.1:0").await {
                 Ok(l) => l,
@@ -607,7 +622,7 @@ pub fn missing_host_probe() -> Vec<(String, String)> {
     let out = rt.block_on(async {
         let mut out = vec![];
         for ldaps in [true, false] {
-            let setup = Setup { ldaps, starttls: !ldaps, no_verify: false, host_is_ip: false, behaviour: Behaviour::Tls(Cert::Good), builder_order: 0, via_clone: false, no_host_via_stream: true, via_stream: false, url_with_query: false, verify_toggled: false };
+            let setup = Setup { ldaps, starttls: !ldaps, no_verify: false, host_is_ip: false, behaviour: Behaviour::Tls(Cert::Good), builder_order: 0, via_clone: false, no_host_via_stream: true, via_stream: false, url_with_query: false, verify_toggled: false, via_default: false };
             let l = match TcpListener::bind("127.0.0.1:0").await {
                 Ok(l) => l,
                 Err(e) => {
